@@ -187,7 +187,7 @@ def summary(setmap: defaultdict[str, int], stream: TextIO = sys.stdout):
     total = sum(setmap.values())
     data = []
     total_count = 0
-    for pset in sorted(setmap.keys(), key=len):
+    for pset in sorted(setmap.keys(), key=lambda s: (len(s), sorted(s))):
         name = "{" + ", ".join(sorted(pset)) + "}"
         count = setmap[pset]
         if total == 0:
